@@ -135,6 +135,9 @@ func (f *FuncVC) terminator(st *State, b *ssa.BasicBlock) {
 			f.backEdge(es, f.loops[to])
 			return
 		}
+		if li := f.loops[b]; li != nil && !li.blocks[to] {
+			f.exitAsserts(es, li)
+		}
 		f.edgeOut[edge{b, to}] = es
 	}
 	switch x := last.(type) {
@@ -443,6 +446,10 @@ func (f *FuncVC) loopHead(st *State, li *loopInfo) {
 		f.unsup(fmt.Sprintf("loop %d has no invariant", li.ordinal))
 	}
 	li.entryOld = st.clone()
+	ri, rlen := f.rangeIndexInfo(st, li)
+	if li.con == nil && ri != nil {
+		li.con = &LoopContract{Ordinal: li.ordinal} // range-over-slice loops get their index invariant for free
+	}
 	// 1. invariant holds on entry
 	if li.con != nil {
 		ev := f.invEval(st, li)
@@ -490,6 +497,32 @@ func (f *FuncVC) loopHead(st *State, li *loopInfo) {
 	f.bumpWM(st)
 	// new path condition constant so that facts about the loop head do not leak backwards
 	// 3. assume invariant
+	if ri != nil {
+		// automatic invariant of a range-over-slice loop: -1 <= index, index+1 <= max(len,0)
+		cur := st.cells[ri]
+		if cur != nil {
+			f.assume(st, and(cmp("<=", "(- 1)", cur.T), cmp("<=", arith("+", cur.T, "1"), "(imax "+rlen+" 0)")))
+			li.autoDec = rlen
+			li.autoRI = ri
+			if li.con.Decreases == nil {
+				li.d0 = f.sc.define("dec0", "Int", arith("-", rlen, cur.T))
+			}
+		}
+	}
+	if mref, mt := f.rangeMapInfo(li); mref != "" {
+		if li.con == nil {
+			li.con = &LoopContract{Ordinal: li.ordinal}
+		}
+		_, ln, _, ok := f.mapHeaps(st, nil, mt)
+		if ok {
+			cnt := f.heap(st, "R:cnt", "(Array Int Int)")
+			f.assume(st, and(cmp("<=", "0", sel(cnt, mref)), cmp("<=", sel(cnt, mref), sel(ln, mref))))
+			li.autoMap, li.autoMapT = mref, mt
+			if li.con.Decreases == nil {
+				li.d0 = f.sc.define("dec0", "Int", arith("-", sel(ln, mref), sel(cnt, mref)))
+			}
+		}
+	}
 	if li.con != nil {
 		ev := f.invEval(st, li)
 		for _, c := range li.con.Invariants {
@@ -553,10 +586,85 @@ func (f *FuncVC) backEdge(es *edgeState, li *loopInfo) {
 			f.oblige(st, "inv.preserve", fmt.Sprintf("loop%d:%s", li.ordinal, cj.Label), cj.Term)
 		}
 	}
+	if li.autoRI != nil {
+		cur := st.cells[li.autoRI]
+		f.oblige(st, "inv.preserve", fmt.Sprintf("loop%d:<range index in bounds>", li.ordinal), and(cmp("<=", "(- 1)", cur.T), cmp("<=", arith("+", cur.T, "1"), "(imax "+li.autoDec+" 0)")))
+	}
 	if li.con.Decreases != nil {
 		d := ev.eval(li.con.Decreases.Expr)
 		f.oblige(st, "decreases", fmt.Sprintf("loop%d:%s", li.ordinal, li.con.Decreases.Text), and(cmp("<", d.T, li.d0), cmp(">=", li.d0, "0")))
+	} else if li.autoMap != "" {
+		_, ln, _, _ := f.mapHeaps(st, nil, li.autoMapT)
+		cnt := f.heap(st, "R:cnt", "(Array Int Int)")
+		f.oblige(st, "decreases", fmt.Sprintf("loop%d:<map range>", li.ordinal), and(cmp("<", arith("-", sel(ln, li.autoMap), sel(cnt, li.autoMap)), li.d0), cmp(">=", li.d0, "0"), cmp("<=", sel(cnt, li.autoMap), sel(ln, li.autoMap))))
+	} else if li.autoRI != nil {
+		cur := st.cells[li.autoRI]
+		f.oblige(st, "decreases", fmt.Sprintf("loop%d:<range index>", li.ordinal), and(cmp("<", arith("-", li.autoDec, cur.T), li.d0), cmp(">=", li.d0, "0")))
 	} else {
 		f.oblige(st, "decreases", fmt.Sprintf("loop%d:<missing>", li.ordinal), "false")
 	}
+}
+
+// rangeIndexInfo recognises the go/ssa shape of "for i := range slice":
+// header block loads the hidden index cell, increments it and compares it
+// with the length computed before the loop.
+func (f *FuncVC) rangeIndexInfo(st *State, li *loopInfo) (*ssa.Alloc, string) {
+	if !strings.HasPrefix(li.header.Comment, "rangeindex.loop") {
+		return nil, ""
+	}
+	var ri *ssa.Alloc
+	for _, ins := range li.header.Instrs {
+		switch x := ins.(type) {
+		case *ssa.UnOp:
+			if a, ok := x.X.(*ssa.Alloc); ok && a.Comment == "rangeindex" && x.Op == token.MUL {
+				ri = a
+			}
+		case *ssa.BinOp:
+			if x.Op == token.LSS && ri != nil {
+				if v, ok := f.regs[x.Y]; ok && v.K == KInt {
+					if _, live := st.cells[ri]; live {
+						return ri, v.T
+					}
+				}
+				if c, ok := x.Y.(*ssa.Const); ok {
+					return ri, f.val(st, c).T
+				}
+			}
+		}
+	}
+	return nil, ""
+}
+
+// exitAsserts checks the loop contract's exit_assert clauses on an edge that leaves the loop.
+func (f *FuncVC) exitAsserts(es *edgeState, li *loopInfo) {
+	if li.con == nil || len(li.con.ExitAsserts) == 0 {
+		return
+	}
+	st := es.st.clone()
+	st.pc = es.cond
+	ev := f.invEval(st, li)
+	for _, c := range li.con.ExitAsserts {
+		for _, cj := range ev.evalConj(c.Expr) {
+			f.oblige(st, "assert", fmt.Sprintf("loop%d exit:%s", li.ordinal, cj.Label), cj.Term)
+		}
+	}
+}
+
+// rangeMapInfo recognises "for k, v := range m" over a map.
+func (f *FuncVC) rangeMapInfo(li *loopInfo) (string, *types.Map) {
+	if !strings.HasPrefix(li.header.Comment, "rangeiter.loop") {
+		return "", nil
+	}
+	for _, ins := range li.header.Instrs {
+		if nx, ok := ins.(*ssa.Next); ok && !nx.IsString {
+			if rg, ok := nx.Iter.(*ssa.Range); ok {
+				if v, ok := f.regs[rg]; ok && v.K == KMap {
+					if mt, ok := rg.X.Type().Underlying().(*types.Map); ok {
+						return v.T, mt
+					}
+				}
+			}
+		}
+	}
+	return "", nil
 }
